@@ -180,3 +180,57 @@ def origin_fields(os_):
     if o.name:
       s.add(o.name)
   return s
+
+
+def match_table(F, body):
+  """for a function of the shape `match self { Variant => CONST, .. }`: {variant name: constant} (None if the shape differs).
+  Several variants may share one arm."""
+  t0 = None
+  for bi in sorted(body.reachable_from(0)):
+    t = body.term(bi)
+    if t['k'] == 'switch':
+      t0 = (bi, t)
+      break
+  if t0 is None:
+    return None
+  bi, t = t0
+  # the discriminant must be discr(self)
+  from ..facts import single_def, op_local
+  l = op_local(t['d'])
+  d = single_def(body, l) if l is not None else None
+  if d is None or d['kind'] != 'assign' or d['rv']['k'] != 'discr':
+    return None
+  ty = body.local_ty(d['rv']['p']['l'])
+  while ty.startswith('&'):
+    ty = ty[1:].lstrip()
+  adt = F.adts.get(ty)
+  if adt is None:
+    return None
+  by_discr = {}
+  for i, v in enumerate(adt['variants']):
+    by_discr[v['discr'] if v.get('discr') is not None else i] = v['n']
+
+  def const_in(bb, depth=0):
+    """the constant assigned to _0 in block bb (following gotos)"""
+    seen = 0
+    while bb is not None and seen < 6:
+      for s in body.blocks[bb]['s']:
+        if s.get('p', {}).get('l') == 0 and not s['p'].get('p') and s['rv']['k'] == 'use':
+          return body.const_of(s['rv']['o'])
+      tt = body.term(bb)
+      bb = tt.get('t') if tt['k'] == 'goto' else None
+      seen += 1
+    return None
+
+  out = {}
+  covered = set()
+  for v, tgt in t['vals']:
+    if v in by_discr:
+      out[by_discr[v]] = const_in(tgt)
+      covered.add(v)
+  if not body._is_unreachable(t['o']):
+    c = const_in(t['o'])
+    for dv, name in by_discr.items():
+      if dv not in covered:
+        out[name] = c
+  return out
